@@ -67,11 +67,13 @@ def gen_recipe(rng, i):
                            'image_solve', 'pickup_radius', 'pickup_conic', 'pickup_thickness', 'solve', 'update',
                            'optimise', 'stale_pickup'])
         if kind == 'set_radius':
-            edits.append(['set_radius', rng.uniform(30, 200) * rng.choice([-1, 1]), rng.randrange(1, n + 1)])
+            edits.append(['set_radius', math.inf if rng.random() < 0.15 else rng.uniform(30, 200) * rng.choice([-1, 1]),
+                          rng.randrange(1, n + 1)])
         elif kind == 'set_conic' and std:
             edits.append(['set_conic', rng.uniform(-1.5, 0.5), rng.choice(std)])
         elif kind == 'set_thickness' and n >= 2:
-            edits.append(['set_thickness', rng.uniform(1.0, 12.0), rng.randrange(1, n)])
+            edits.append(['set_thickness', rng.uniform(1.0, 12.0), rng.randrange(1, n)] if rng.random() < 0.85
+                         else ['set_thickness', rng.uniform(50.0, 300.0), 0])
         elif kind == 'set_index' and n >= 2:
             edits.append(['set_index', rng.uniform(1.4, 1.9), rng.randrange(1, n)])
         elif kind == 'set_asphere_coeff' and even:
